@@ -4,7 +4,13 @@ System: real SdoClient against RefSdoServer; the transport executes a fault
 plan with exactly ONE disturbance placed at protocol step k of the disturbed
 transfer.  Run = warm-up transfer (undisturbed, records frames that serve as
 stale frames and tells how many responses the transfer has) -> disturbed
-transfer -> drain -> undisturbed follow-up transfer.
+transfer -> drain -> undisturbed follow-up transfer.  In a quarter of the runs an
+EARLIER transfer on the same client has already lost a response (prelude); the
+exception of that failed call is kept alive and released - so that the garbage
+collector finalizes the stream objects it holds - at the end of the run, right
+away, or at a tape-chosen instant inside the follow-up transfer.  Against the
+repository's own server one more disturbance exists: the request is duplicated
+on the bus, so that the real peer produces the abort / stale answer itself.
 """
 import canopen
 from canopen.sdo.exceptions import SdoAbortedError, SdoCommunicationError, SdoError
@@ -30,6 +36,10 @@ ASSUMPTIONS = [
     "a stale or duplicated frame that is protocol-indistinguishable (same command specifier, toggle/sequence "
     "number and multiplexer where carried) from the expected response is not judged for data equality (rule 3)",
     "MAX_RETRIES stays at its shipped value 1",
+    "the moment at which CPython finalizes the stream objects of an earlier, failed transfer is not under the application's control: the simulator picks it "
+    "(gc.collect() from a simulator event); what those finalizers put on the bus is the library's behaviour",
+    "a CAN-level duplicate of a request (dup-req) is injected only against the repository's own server: from the client's side it is 'abort frame received' / "
+    "'stale response', produced by the real peer",
 ]
 COMPONENTS = {
     "real": ["canopen.sdo.client (all stream classes incl. block)", "canopen.Network", "canopen.RemoteNode",
